@@ -192,24 +192,30 @@ def run_matrix(stg, seed, quick, tag="dmx"):
     rng = random.Random(seed)
     combos = list(itertools.product(STATES, DIRT, range(len(COMMANDS))))
     if quick:
-        # every command once, every state x dirt pair at least once
+        # a fixed core (every --keep command and every command that re-pushes or deletes below the top,
+        # in every stack arrangement, with an unstaged edit of the merged file and with a staged new
+        # file), every other command once, and a seeded random sample of the rest
+        core_cmds = [i for i, a in enumerate(COMMANDS)
+                     if "--keep" in a or a[0] in ("delete", "squash", "pick", "edit", "rebase")]
+        chosen = [(st, di, i) for i in core_cmds for st in STATES for di in ("unstaged-f", "staged-new")]
         pairs = list(itertools.product(STATES, DIRT))
         rng.shuffle(pairs)
-        chosen = []
-        for i in range(len(COMMANDS)):
-            st, di = pairs[i % len(pairs)]
+        for k, i in enumerate(j for j in range(len(COMMANDS)) if j not in core_cmds):
+            st, di = pairs[k % len(pairs)]
             chosen.append((st, di, i))
-        extra = rng.sample(combos, 30)
-        combos = chosen + extra
+        combos = chosen + rng.sample(combos, 20)
     bases = {}
     failures = []
     stats = {"runs": 0, "exit": {}, "by_state": {}, "by_dirt": {}}
     try:
         for st in STATES:
             bases[st] = make_base(stg, st)
-        for st, di, ci in combos:
+        jobs = [(stg, bases[st].path, bases[st].tick, st, di, COMMANDS[ci], tag) for st, di, ci in combos]
+        import multiprocessing
+        with multiprocessing.Pool(12) as pool:
+            results = pool.map(_job, jobs, chunksize=4)
+        for (st, di, ci), (code, stderr, probs) in zip(combos, results):
             argv = COMMANDS[ci]
-            code, stderr, probs = run_case(stg, bases[st], st, di, argv, tag)
             stats["runs"] += 1
             stats["exit"][str(code)] = stats["exit"].get(str(code), 0) + 1
             stats["by_state"][st] = stats["by_state"].get(st, 0) + 1
@@ -220,6 +226,17 @@ def run_matrix(stg, seed, quick, tag="dmx"):
         for b in bases.values():
             b.__exit__(None, None, None)
     return stats["runs"], stats, failures
+
+
+class _Base:
+    def __init__(self, path, tick):
+        self.path = path
+        self.tick = tick
+
+
+def _job(args):
+    stg, path, tick, st, di, argv, tag = args
+    return run_case(stg, _Base(path, tick), st, di, argv, tag)
 
 
 def check(ctx, stg, clause, tag):
